@@ -204,3 +204,92 @@ func RunPTYOpt(bin string, args []string, rows, cols int, input string, timeout 
 	res.Stderr = res.Stdout
 	return res, nil
 }
+
+// RunPTYExpect runs bin under a pseudo-terminal without echo and lets react answer the
+// program: it is called with everything written so far whenever new output arrived and
+// returns the text to type next ("" for nothing). The run ends when the process exits.
+func RunPTYExpect(bin string, args []string, rows, cols int, timeout time.Duration, react func(out string) string) (*Result, error) {
+	ptmx, err := os.OpenFile("/dev/ptmx", os.O_RDWR|syscall.O_NOCTTY, 0)
+	if err != nil {
+		return nil, err
+	}
+	defer ptmx.Close()
+	var unlock int32
+	if err := ioctl(ptmx.Fd(), 0x40045431, unsafe.Pointer(&unlock)); err != nil { // TIOCSPTLCK
+		return nil, err
+	}
+	var n uint32
+	if err := ioctl(ptmx.Fd(), 0x80045430, unsafe.Pointer(&n)); err != nil { // TIOCGPTN
+		return nil, err
+	}
+	slave, err := os.OpenFile(fmt.Sprintf("/dev/pts/%d", n), os.O_RDWR|syscall.O_NOCTTY, 0)
+	if err != nil {
+		return nil, err
+	}
+	ws := struct{ Row, Col, X, Y uint16 }{uint16(rows), uint16(cols), 0, 0}
+	if err := ioctl(ptmx.Fd(), 0x5414, unsafe.Pointer(&ws)); err != nil { // TIOCSWINSZ
+		slave.Close()
+		return nil, err
+	}
+	var t syscall.Termios
+	if err := ioctl(slave.Fd(), 0x5401, unsafe.Pointer(&t)); err != nil { // TCGETS
+		slave.Close()
+		return nil, err
+	}
+	t.Lflag &^= 0x8                                                       // ECHO
+	if err := ioctl(slave.Fd(), 0x5402, unsafe.Pointer(&t)); err != nil { // TCSETS
+		slave.Close()
+		return nil, err
+	}
+	ctx, cancel := context.WithTimeout(context.Background(), timeout)
+	defer cancel()
+	cmd := exec.CommandContext(ctx, bin, args...)
+	cmd.Stdin, cmd.Stdout, cmd.Stderr = slave, slave, slave
+	cmd.SysProcAttr = &syscall.SysProcAttr{Setsid: true, Setctty: true, Ctty: 0}
+	cmd.Env = append(os.Environ(), "GOTRACEBACK=single", "TERM=dumb")
+	if err := cmd.Start(); err != nil {
+		slave.Close()
+		return nil, err
+	}
+	slave.Close()
+	var out bytes.Buffer
+	done := make(chan struct{})
+	go func() {
+		buf := make([]byte, 4096)
+		for {
+			k, err := ptmx.Read(buf)
+			if k > 0 {
+				out.Write(buf[:k])
+				if s := react(out.String()); s != "" {
+					ptmx.WriteString(s)
+				}
+			}
+			if err != nil {
+				break
+			}
+		}
+		close(done)
+	}()
+	err = cmd.Wait()
+	res := &Result{}
+	if ctx.Err() == context.DeadlineExceeded {
+		res.TimedOut = true
+	}
+	if err != nil {
+		if ee, ok := err.(*exec.ExitError); ok {
+			if ws, ok := ee.Sys().(syscall.WaitStatus); ok && ws.Signaled() {
+				res.Exit = -1
+				res.Signal = ws.Signal().String()
+			} else {
+				res.Exit = ee.ExitCode()
+			}
+		}
+	}
+	select {
+	case <-done:
+	case <-time.After(300 * time.Millisecond):
+	}
+	res.Stdout = out.String()
+	res.Stderr = res.Stdout
+	return res, nil
+}
